@@ -4,6 +4,7 @@ Nothing here calls the library: it only forks children (procs.run_child) that do
 """
 import hashlib
 import json
+import os
 
 from . import procs
 from . import worker
@@ -98,8 +99,19 @@ def strip(res):
 
 # ----------------------------------------------------------------------------- children
 
+def _fresh(ops):
+    """every execution starts from a freshly parsed copy of its program: equal strings are then distinct objects
+    in every process alike (the driver re-uses one str object for an id in many ops, a program shipped to the second
+    interpreter arrives JSON-parsed – pickle memoises by identity, so the *text* of to_b64() would otherwise depend
+    on how the harness happened to pass its arguments)"""
+    if os.environ.get("PSS_NOFRESH"):   # debugging aid: reproduce the identity-sharing artefact
+        return ops
+    return json.loads(json.dumps(ops))
+
+
 def child_last(ops):
     """reference child: run a slice in a process with no past, return the last op's result"""
+    ops = _fresh(ops)
     try:
         res, _, _ = worker.run_ops(ops)
         return res[-1]
@@ -109,6 +121,7 @@ def child_last(ops):
 
 def child_all(ops, final_audit=True, store=None, stop_on_crash=False, alias_restore=False):
     """SUT child: run the whole program in one process; per-op OpErrors are recorded."""
+    ops = _fresh(ops)
     s = worker.Session(store)
     out = []
     stopped = None
